@@ -241,3 +241,12 @@ for n in ["send_retry_first_single_att", "send_retry_first_frag_att", "send_retr
 H("c16_drop_undecoded_fd0", ["C16", "C03", "C11"], sym="payload bytes symbolic; one unconverted channel attachment whose descriptor number is 0", bounds="unwind 19")
 
 HARNESSES["send_many_64_frag"]["props"].append("C02")   # 65 descriptors on the header packet = follow-ups read from a user channel
+
+for n in ["recv_interleaved_ab", "recv_interleaved_ba"]:
+    H(n, ["C02"], sym="contents of both messages symbolic; two multi-packet messages whose packets interleave (follow-ups of the later message arrive first), header order concrete (name)", bounds="unwind 6; 2 messages of 3 and 2 packets")
+for n in ["sender_transit_queued", "sender_transit_carrier_dropped", "sender_transit_unpacked_dropped"]:
+    H(n, ["C03"], sym="message bytes symbolic; the last sender handle of a channel travels inside a queued message (injected)", bounds="unwind 6")
+for n in ["c16_string_00", "c16_vec_u16_00", "c16_nested_struct_00", "c16_opt_sender_10", "c16_vec_sender_20"]:
+    H(n, ["C16"], sym=_c16_sym, bounds=_c16_b, opt=["REACH_OK"] if n == "c16_nested_struct_00" else [])
+for n in ["ipc_val_string3", "ipc_val_nested_struct"]:
+    H(n, ["C01"], sym="the sent VALUE symbolic (3-byte ASCII String; nested struct with Option, enum, array)", bounds="unwind 8..12")
